@@ -214,11 +214,14 @@ def run(chk):
     for name, fmtmap in (("read", {"raw": "self.raw", "phys": "self.phys", "desc": "self.desc"}), ("write", {"raw": "self.raw = value", "phys": "self.phys = value", "desc": "self.desc = value"})):
         m = var.methods[name]
         fm = ff_for(chk, m, "C20.R5")
+        seen_fmt = set()
         for n in [x for x in own_nodes(m.node) if isinstance(x, (ast.Return, ast.Assign))]:
             g = [(src(e), p) for e, p in fm.facts_at(n)]
             which = next((k for k in fmtmap if (f"fmt == '{k}'", True) in g), None)
+            seen_fmt.add(which)
             txt = src(n.value) if isinstance(n, ast.Return) else src(n)
             chk.check(which is not None and txt == fmtmap[which], "R5", f"{V}:Variable.{name} | fmt {which}", m.loc(n), f"{txt} under {g}")
+        chk.check(set(fmtmap) <= seen_fmt, "R5", f"{V}:Variable.{name} | raw, phys and desc formats all served", m.loc(), f"no branch for {sorted(set(fmtmap) - seen_fmt)}: the call silently does nothing")
     allowed = {"SdoVariable": {"__init__", "get_data", "set_data", "writable", "readable", "open"}, "PdoVariable": {"__init__", "get_data", "set_data"}}
     for rel, cname in ((SB, "SdoVariable"), (PB, "PdoVariable")):
         c = repo.cls(rel, cname, "C20.R5")
